@@ -128,7 +128,15 @@ pub fn measure<R>(f: impl FnOnce() -> R) -> (R, AllocStats) {
 
 // ------------------------------------------------------------------ panics
 thread_local! { static LAST_PANIC: RefCell<String> = RefCell::new(String::new()); static DEPTH: Cell<u32> = const { Cell::new(0) }; }
+/// safety net: a runaway allocation in the code under test must not take the sandbox down
+pub fn limit_memory(bytes: u64) {
+    unsafe {
+        let lim = libc::rlimit { rlim_cur: bytes, rlim_max: bytes };
+        libc::setrlimit(libc::RLIMIT_AS, &lim);
+    }
+}
 pub fn install_panic_hook() {
+    limit_memory(6 << 30);
     std::panic::set_hook(Box::new(|info| {
         let loc = info.location().map(|l| format!("{}:{}", l.file(), l.line())).unwrap_or_default();
         let msg = if let Some(s) = info.payload().downcast_ref::<&str>() {
